@@ -131,6 +131,7 @@ struct TwinEnv : Family {
 				for (size_t k = 0; k < nf; ++k) {
 					std::string nm = randName(r, 1, 10, r.chance(1, 2));
 					if (!names.empty() && r.chance(1, 3)) nm = tieProneSibling(names[r.below(names.size())], r);
+					if (r.chance(1, 6)) nm = digestTwin(names, r, 12);
 					bool clash = false;
 					for (auto& o : names) if (ref::nameEqualNoCase(o, nm)) clash = true;
 					if (clash) continue;
